@@ -1,4 +1,5 @@
 import RxProofs.Lemmas.SubjThm
+import RxProofs.Lemmas.SubjOrder
 /-!
 # C20 — a Subject broadcasts to exactly the observers subscribed at the time
 
@@ -54,6 +55,22 @@ theorem subject_broadcast_exact {cfg : Cfg} {v : Option α} {st : St α} {ag : L
         (deliver cfg st i n).1.log i = if userSees cfg i n then st.log i ++ [n] else st.log i) ∧
       (∀ k, k ≠ i → (deliver cfg st i n).1.log k = st.log k)) :=
   ⟨fun n hd hs => emit_audience h (by simp [hk]) n hd hs, fun i n => deliver_turn h i n⟩
+
+/-- **received_in_call_order** (per-observer order = call order, nothing twice).  In every reachable
+configuration what observer `i` has been handed is a *subsequence* of the notifications the subject
+accepted, in the order they were accepted — or, for an observer that subscribed to an already disposed
+subject, just the `DisposedException`.  Moreover a pending delivery always carries the *latest* accepted
+notification, its observer has so far only been handed earlier ones, and pending deliveries are for
+pairwise distinct observers: no observer is handed the same call twice. -/
+theorem received_in_call_order {cfg : Cfg} {v : Option α} (hv : InitOK cfg v) (hk : cfg.kind = .subject)
+    {st : St α} {ag : List (Subj.Task α)} (h : Reachable cfg v st ag) :
+    (∀ i, List.Sublist (recvs i st.tr) (emits st.tr) ∨
+        (recvs i st.tr = [.error disposedExn] ∧ st.disposed = true)) ∧
+    (∀ i n, Subj.Task.deliver i n ∈ ag →
+        (emits st.tr).getLast? = some n ∧ List.Sublist (recvs i st.tr) (emits st.tr).dropLast) ∧
+    (ag.filterMap deliverId).Nodup :=
+  let o := reachable_oinv hv hk h
+  ⟨o.sub, o.pend, o.distinct⟩
 
 /-- What the user of observer `i` has seen is what its AutoDetachObserver was handed (minus errors
 when it has no `on_error` handler: those are raised by `default_error`). -/
@@ -147,6 +164,7 @@ example : exRun.1.log 6 = [.error "DisposedException"] := by decide
 example : exRun.1.xlog = [(2, "DisposedException")] := by decide
 example : exRun.2 = [none, none, none, none, none, some "DisposedException", none, none] := by decide
 example : exRun.1.oof = false := by decide
+example : emits exRun.1.tr = [.next 7, .next 8] ∧ recvs 4 exRun.1.tr = [.next 8] := by decide
 /-- the hypotheses of `late_gets_terminal_only` are satisfiable -/
 example : (run { exCfg with react := fun _ _ => [] } 100 (init exCfg (none : Option Nat))
     [.sub 0, .next 1, .error "boom", .sub 1, .next 2]).1.log 1 = [.error "boom"] := by decide
